@@ -66,6 +66,9 @@ DFXP_PIECES = [
     ("it", '<span tts:fontStyle="italic">it</span>', "span"),
     ("ab", '<span tts:fontStyle="italic">a<span tts:fontWeight="bold">b</span></span>', "nested-span"),
     ("st", '<span style="s1">st</span>', "span"),
+    ("ab", "a<!-- note -->b", "comment"),
+    ("word", "<!--x-->word<!-- a < b -->", "comment"),
+    ("c&d<", "<![CDATA[c&d<]]>", "cdata-section"),
 ]
 SAMI_PIECES = [
     ("word", "word", "plain"),
@@ -106,6 +109,8 @@ SAMI_PIECES = [
     ("un", "<u>un</u>", "tag"),
     ("sp", '<span style="font-style:italic;">sp</span>', "tag"),
     ("fo", '<font color="#ff0000">fo</font>', "tag"),
+    ("ab", "a<!-- note -->b", "comment"),
+    ("word", "<!--x-->word<!-- a b -->", "comment"),
 ]
 VTT_PIECES = [
     ("word", "word", "plain"),
